@@ -97,7 +97,7 @@ class C18(Check):
                             continue
                         i += 1
                         yield dict(seed=seed * 100003 + i, source=source, n=n + (int(rng.integers(0, 3)) * c if rep else 0), chunk=c,
-                                   mode=mode, workers=1 if i % 3 else 4, group=str(rng.choice(["smaller", "equal", "larger", "one"])))
+                                   mode=mode, workers=1 if i % 3 else 4, group=str(rng.choice(["smaller", "equal", "larger", "one", "irregular"])))
         for j in range(160 if q else 6000):
             c = int(rng.choice([1, 2, 3, 7, 100]))
             n = int(rng.choice([1, 2, max(1, c - 1), c, c + 1, 2 * c - 1, 2 * c, 2 * c + 1, 97, 3 * c + 1]))
@@ -106,7 +106,7 @@ class C18(Check):
             i += 1
             yield dict(seed=seed * 100003 + i, source=kinds[j % 5], n=n, chunk=chunk,
                        mode=str(rng.choice(modes, p=[0.5, 0.3, 0.2])),
-                       workers=1 if j % 3 else 4, group=str(rng.choice(["smaller", "equal", "larger", "one"])))
+                       workers=1 if j % 3 else 4, group=str(rng.choice(["smaller", "equal", "larger", "one", "irregular"])))
 
     def setup_worker(self):
         warnings.simplefilter("ignore")
@@ -157,9 +157,10 @@ class C18(Check):
         with Scratch("c18") as tmp:
             src_path = None
             if source in ("hdf5", "fits", "parquet"):
-                rgs = {"smaller": max(1, chunk // 3), "equal": chunk, "larger": chunk * 2 + 1, "one": n}[case["group"]]
+                rgs = {"smaller": max(1, chunk // 3), "equal": chunk, "larger": chunk * 2 + 1, "one": n, "irregular": chunk}[case["group"]]
                 src_path = sources.write_source(source, tmp / ("input" + sources.EXT[source]), cols,
-                                                row_group_size=min(max(rgs, 1), n))
+                                                row_group_size=([2 * chunk + 3, max(1, chunk // 2), 1, chunk] if case["group"] == "irregular" and source == "parquet"
+                                                                else min(max(rgs, 1), n)))
 
             partial_log = {}
             stream_fault = None
